@@ -131,7 +131,11 @@ pub async fn reentrant_queries(prov: &Prov, cache: &SolverCache<Prov>, solvables
             }
         }
     }
-    drop(held);
+    if !held.is_empty() {
+        prov.log(Ev::ProviderDrops(true));
+        drop(held);
+        prov.log(Ev::ProviderDrops(false));
+    }
     prov.reentrant_queries.set(prov.reentrant_queries.get() + n);
     prov.reentrant_obs.borrow_mut().extend(obs);
 }
